@@ -240,7 +240,13 @@ def find(
                 if include_file and file_platform.process_include(
                     os.path.realpath(include_file),
                 ):
-                    state.insert_file(include_file)
+                    # A file whose extension tells no language is read in
+                    # the language of the file being compiled, like the
+                    # files named by #include.
+                    lang = FileLanguage(include_file).get_language()
+                    if lang is None:
+                        lang = state.langs[state._get_realpath(e["file"])]
+                    state.insert_file(include_file, lang)
                     state.associate(include_file, file_platform)
 
             # Process the file, to build a list of associate nodes
